@@ -54,6 +54,8 @@ def initial_content(kind: str, st: dict | None) -> bytes:
     code = "value1 := 1;\nvalue2 := 2;\n"
     if kind == "empty":
         return b""
+    if kind == "binary":     # not text, whatever the name says: the header belongs into a .license sibling
+        return b"\x89PNG\r\x1a\x00\x00\x00IHDR" + bytes(x for x in range(256) if x != 10) + b"\xff\xfe\x00tail"
     if kind == "code" or st is None:
         return code.encode()
     cm = (lambda t: st["single"] + st["ias"] + t) if st["hasSingle"] else (lambda t: st["ms"] + " " + t + " " + st["me"])
